@@ -176,9 +176,27 @@ func (x *runner) archiveBytes(fam string, arch []byte) {
 				r.Fail("", "a query on the view does not return: "+describe(ms))
 				return
 			}
+			if x.rnd.Intn(3) == 0 {
+				keys := make([]string, 0, len(lk))
+				for k := range lk {
+					keys = append(keys, k)
+				}
+				sort.Strings(keys)
+				if !withTimeout(120*time.Second, func() { lines = append(lines, x.layerLines(arch, keys, len(ins))...) }) {
+					r.Fail("", "a Layer operation does not return: "+describe(ms))
+					return
+				}
+			}
+			if x.rnd.Intn(40) == 0 {
+				x.readerChecks(arch)
+			}
 		}
 	} else {
 		lines = append(lines, opline{"new", newOut, true})
+		if !linkInPath(ms) && x.rnd.Intn(2) == 0 {
+			// A Layer over an archive New rejects.
+			lines = append(lines, x.layerLines(arch, nil, 0)...)
+		}
 		if linkInPath(ms) {
 			// New failed on an archive in which some member is placed through a
 			// link: two spellings of one name may have produced two children of
@@ -196,6 +214,15 @@ func (x *runner) archiveBytes(fam string, arch []byte) {
 	} else {
 		for _, l := range lines {
 			r.Op(l.op, l.out, l.nt)
+			if strings.HasPrefix(l.op, "l") {
+				r.Count("op:" + strings.SplitN(l.op, " ", 2)[0])
+				ans := strings.SplitN(l.out, " ", 2)[0]
+				if strings.HasPrefix(l.op, "lfiles") && ans != "notfound" && ans != "err" && ans != "err:other" {
+					ans = "found"
+				}
+				r.Count("layer:" + strings.SplitN(l.op, " ", 2)[0] + "=" + ans)
+				continue
+			}
 			if strings.HasPrefix(l.op, "m ") || l.op == "reset" || l.op == "xtree" {
 				if l.op == "xtree" {
 					r.Count("op:xtree")
